@@ -10,14 +10,29 @@ operand values are bytes.
 Tie: hand models Model/OpText.lean (disassembler side) + Model/AsmEval.lean (assembler side),
 correspondence below against skoolkit.disassembler / skoolkit.z80 / skoolkit.textutils /
 skoolkit.get_int_param.
+Instruction level: the opcode tables of real Disassembler objects are dumped on every run
+(translate/gen_c02.py -> Gen/C02Tables.lean); `instruction_roundtrip` (every slot of the seven tables x
+every additional-opcode set x every operand byte / displacement / jump offset x every address incl. the
+64K boundary x every base pair x case x number format): a kernel-evaluated check of every slot
+(Proofs/AsmInstrChk) + one soundness lemma per encoder rule of the assembler model
+(Model/AsmInstr.lean = Assembler._assemble and all encoders; Model/DisText.lean = one
+Disassembler.disassemble step down to the text).  Both models are tied here: every text the forward
+enumeration renders is also assembled by the model, a malformed / variant instruction stream goes through
+model and real `_assemble` (same bytes or same kind of rejection), and the model's rendering is compared
+with the real `disassemble`.
 E2E: the property itself on the real Disassembler/Assembler: every opcode slot (all prefixes) x
 operand bytes x addresses (incl. the 64K boundary) x bases x case x hex x opcode sets; every
 DEFB/DEFM/DEFW/DEFS rendering; and the converse on grammar-generated instruction texts."""
+import io
 import itertools
+import os
 import re
+import sys
 import warnings
 
-from framework import fresh_import
+from framework import VERIF, REPO, LeanLock, fresh_import
+
+sys.path.insert(0, os.path.join(VERIF, 'translate'))
 
 PROPS = 'SkoolVerif.Props.C02'
 BASES = ('n', 'b', 'c', 'd', 'h', 'm')
@@ -27,6 +42,7 @@ EDGE_BYTES = (0, 1, 2, 9, 10, 31, 32, 34, 44, 65, 92, 94, 96, 97, 126, 127, 128,
 EDGE_ADDRS = (0, 1, 2, 125, 126, 127, 128, 129, 130, 254, 255, 256, 16383, 16384, 32767, 32768,
               65405, 65406, 65407, 65408, 65409, 65410, 65411, 65533, 65534, 65535)
 OPCODE_SETS = ('', 'ALL', 'ED63', 'ED6B', 'ED70', 'ED71', 'IM', 'NEG', 'RETN', 'XYCB')
+OPTIONS = ('ED63', 'ED6B', 'ED70', 'ED71', 'IM', 'NEG', 'RETN', 'XYCB')     # bit n of the model's `opts`
 SPACES = (9, 10, 11, 12, 13, 28, 29, 30, 31, 32, 133, 160)
 
 
@@ -365,6 +381,204 @@ def rand_data_subs(rng):
 
 
 # --------------------------------------------------------------------------------------------
+# instruction level: table dump, model correspondence
+# --------------------------------------------------------------------------------------------
+
+def regen(chk):
+    """Dump the opcode tables of real Disassembler objects into Gen/C02Tables.lean (every run)."""
+    import importlib
+    for m in ('gen_c07', 'gen_c02'):
+        if m in sys.modules:
+            importlib.reload(sys.modules[m])
+    import gen_c02
+    try:
+        text = gen_c02.gen_tables(REPO)
+    except Exception as e:
+        chk.breaks.append({'kind': 'translator', 'name': 'Disassembler tables -> Gen/C02Tables.lean',
+                           'detail': f'{type(e).__name__}: {e}'})
+        return False
+    with LeanLock():
+        if chk.write_gen(os.path.join('SkoolVerif', 'Gen', 'C02Tables.lean'), text):
+            chk.note('regenerated (source changed): C02Tables.lean')
+    chk.extra['generated_files'] = sorted(set(chk.extra.get('generated_files', [])) | {'C02Tables.lean'})
+    return True
+
+
+def opts_mask(opcodes):
+    """The model's `opts` bit set for a Disassembler `opcodes` configuration string."""
+    names = [e.strip() for e in opcodes.upper().split(',')]
+    if 'ALL' in names:
+        return 255
+    return sum(1 << i for i, o in enumerate(OPTIONS) if o in names)
+
+
+def asm_impl(asm, text, addr):
+    """`Assembler._assemble` classified like the model: bytes (None = empty), ValueError, any other exception."""
+    try:
+        r = asm._assemble(text, addr)
+    except ValueError:
+        return 'valErr'
+    except Exception:
+        return 'otherErr'
+    return ok_list(r or ())
+
+
+MNEMONICS = ('ADC', 'ADD', 'AND', 'BIT', 'CALL', 'CCF', 'CP', 'CPD', 'CPDR', 'CPI', 'CPIR', 'CPL', 'DAA', 'DEC', 'DI', 'DJNZ',
+             'EI', 'EX', 'EXX', 'HALT', 'IM', 'IN', 'INC', 'IND', 'INDR', 'INI', 'INIR', 'JP', 'JR', 'LD', 'LDD', 'LDDR',
+             'LDI', 'LDIR', 'NEG', 'NOP', 'OR', 'OTDR', 'OTIR', 'OUT', 'OUTD', 'OUTI', 'POP', 'PUSH', 'RES', 'RET', 'RETI',
+             'RETN', 'RL', 'RLA', 'RLC', 'RLCA', 'RLD', 'RR', 'RRA', 'RRC', 'RRCA', 'RRD', 'RST', 'SBC', 'SCF', 'SET', 'SLA',
+             'SLL', 'SRA', 'SRL', 'SUB', 'XOR')
+BAD_MNEMONICS = ('FOO', '', 'LDX', 'L', 'DEFB', 'DEFM', 'DEFW', 'DEFS', 'DEF', 'DEFX', 'JRR', 'NOPE', 'I', 'EXA', 'SL1')
+OPERAND_POOL = (
+    'A', 'B', 'C', 'D', 'E', 'H', 'L', '(HL)', '(BC)', '(DE)', '(SP)', '(C)', '(IX)', '(IY)', 'BC', 'DE', 'HL', 'SP', 'AF',
+    "AF'", 'IX', 'IY', 'IXH', 'IXL', 'IYH', 'IYL', 'IXh', 'ixl', 'I', 'R', 'F', '0', 'NZ', 'Z', 'NC', 'PO', 'PE', 'P', 'M',
+    '(IX+1)', '(IX-0)', '(IX+0)', '(IY+$7F)', '(IY-128)', '(IX+128)', '(IX-129)', '(IX+255)', '(IX+256)', '(IX-255)',
+    '(IX-256)', '(IX+-5)', '(IX--5)', '(IX+"a")', '(IY-"\\"")', '(IZ+1)', '(IX+1', '(IX+)', '(IX+1/0)', '(I', '(IXH)', '( IX+1)',
+    '(IX +1)', '(IX+ 1 )', '(IX+%101)', '(iy+$0a)', '(Ix+3*4)', '(IX+(2))',
+    '5', '0', '1', '2', '3', '4', '7', '8', '12', '16', '20', '24', '32', '40', '48', '52', '56', '57', '58', '60', '63', '64', '-0', '-1', '-8', '255', '256', '-255',
+    '-256', '65535', '65536', '-65535', '-65536', '$FF', '$ff', '%101', '"a"', '"\\""', '","', '" "', '"("', '1+2', '(1+2)',
+    '(5)', '((5))', '(5)+(6)', '1/0', '(1/0)', '()', '(', '', '(255)', '(256)', '(-1)', '(-0)', '(65535)', '(65536)', '("a")',
+    '($4000)', '(16384)', '( 16384 )', '3+%101', '2*3', '-(-5)', '08', '1 2', '$', '%', '"', '\\', "'", "af'", '(hl)', '(Hl)',
+    'ixh', 'b', '(c)', 'nz', '$38', '%00111000', '"8"', '+8', '32768', '$8000', '"0"')
+
+
+def malformed_stream(chk, n):
+    """Instruction texts around the assembler's grammar: every mnemonic (and some that are none) with 0..4
+    operands drawn from registers in either case, index operands incl. `(IX-0)` / `(IY+$7F)` / out-of-range
+    displacements, numbers at the limits of every range, expressions, strings, empty and malformed operands,
+    odd separators and white space."""
+    rng = chk.rng
+    spaces = (' ', ' ', ' ', '\t', '  ', ' \t ', '', '\x0b', '\xa0', '\x1f', '\n')
+    for _ in range(n):
+        mn = rng.choice(MNEMONICS) if rng.random() < 0.9 else rng.choice(BAD_MNEMONICS)
+        k = rng.choice((0, 1, 1, 1, 2, 2, 2, 2, 3, 4))
+        ops = [rng.choice(OPERAND_POOL) if rng.random() < 0.85 else spell(rng, rng.choice((0, 1, 7, 8, 56, 255, 256, 65535)))
+               for _ in range(k)]
+        sep = rng.choice((',', ',', ',', ',', ' ,', ', ', ' , ', ',,', ';'))
+        t = mn + (rng.choice(spaces) if k or rng.random() < 0.2 else '') + sep.join(ops)
+        if rng.random() < 0.1:
+            t = rng.choice(spaces) + t
+        if rng.random() < 0.1:
+            t += rng.choice(spaces)
+        if rng.random() < 0.05:
+            t += ','
+        r = rng.randrange(6)
+        if r == 0:
+            t = t.lower()
+        elif r == 1 and '"' not in t:
+            t = ''.join(c.lower() if rng.random() < 0.5 else c.upper() for c in t)
+        if has_pow(t) or any(ord(c) > 255 or c in 'µßÿ' for c in t):
+            continue
+        yield t, rng.choice((0, 1, 100, 32768, 65534, 65535, rng.randrange(65536)))
+
+
+def variant_sequences(disassembler):
+    """Every opcode sequence the disassembler flags VARIANT under Opcodes=ALL (found by probing the tables)."""
+    d = disassembler.Disassembler([0] * 65536, Cfg(opcodes='ALL'))
+    seqs = [(0xED, k) for k, v in sorted(d.after_ED.items()) if len(v) > 2 and v[2] & 1]
+    for pre in (0xDD, 0xFD):
+        seqs += [(pre, 0xCB, dd, k) for k, v in sorted(d.after_DDCB.items()) if len(v) > 2 and v[2] & 1 for dd in (0, 5, 255)]
+    return seqs
+
+
+def correspondence_instr(chk, mods, texts):
+    """Model of the assembler's instruction path and of the disassembler's rendering vs the real code."""
+    skoolkit, z80, disassembler, textutils = mods
+    rng = chk.rng
+    asm = z80.Assembler()
+    ops, impl = [], []
+
+    def add(op, res, tag, key=None, sample=None):
+        ops.append(op)
+        impl.append(res)
+        chk.case(tag, key, sample)
+
+    # (a) + (c): what the forward enumeration rendered: per slot x base x configuration x boundary class the first
+    # text (quick) / first four texts (thorough) and 2% of the others (selected in check_forward)
+    for (operation, akey), (hx, lo, opc, wrap, base, addr, seq, variant, data, back) in texts.items():
+        if any(ord(c) > 255 for c in operation):
+            continue
+        add(f'asm {addr} ' + cps(operation), asm_impl(asm, operation, addr), 'asm-rendered', ('asm', operation, akey),
+            {'op': 'asm', 'text': operation, 'addr': addr, 'impl': list(back)} if len(ops) % 20011 == 7 else None)
+        add('dis {} {} {} {} {} {} {} '.format(int(hx), int(lo), opts_mask(opc), int(wrap), base[0], base[-1], addr)
+            + ' '.join(map(str, seq)),
+            'ok {} {} | {}'.format(variant, ','.join(map(str, data)), cps(operation)), 'dis-rendered',
+            ('dis', operation, akey, hx, lo, opc, wrap, base))
+    chk.extra['rendered_texts_to_model'] = len(ops) // 2
+
+    # (b) malformed / variant stream
+    with warnings.catch_warnings():
+        warnings.simplefilter('ignore')
+        for t, a in malformed_stream(chk, chk.scale(40000, 400000)):
+            r = asm_impl(asm, t, a)
+            add(f'asm {a} ' + cps(t), r, 'asm-stream-' + ('ok' if r.startswith('ok ') else 'none' if r == 'ok' else r),
+                ('asmx', t, a if t.strip()[:2].upper() in ('JR', 'DJ') else 0),
+                {'op': 'asm', 'text': t, 'addr': a, 'impl': r} if len(ops) % 5003 == 11 else None)
+        # directed: every condition (and some that are none) with every conditional mnemonic
+        for mn in ('JR', 'JP', 'CALL', 'RET', 'DJNZ', 'jr', 'Jp'):
+            for cc in ('NZ', 'Z', 'NC', 'C', 'PO', 'PE', 'P', 'M', 'nz', 'po', 'm', 'X', 'HL', 'A', '', '0'):
+                for a in (0, 32768, 65535):
+                    for t in (f'{mn} {cc},{(a + 5) % 65536}', f'{mn} {cc}', f'{mn} {cc},{(a + 5) % 65536},1'):
+                        r = asm_impl(asm, t, a)
+                        add(f'asm {a} ' + cps(t), r, 'asm-conditions-' + r.split()[0], ('asmc', t, a))
+        # grammar-generated spellings of every template (the converse generator's language)
+        tmpls = templates(disassembler)
+        for n in range(chk.scale(12000, 120000)):
+            tmpl, kind = tmpls[rng.randrange(len(tmpls))]
+            a = rng.choice(EDGE_ADDRS) if rng.random() < 0.7 else rng.randrange(65536)
+            t = mangle(rng, fill(rng, tmpl, kind, a)[0])
+            if has_pow(t) or any(ord(c) > 255 or c in 'µßÿ' for c in t):
+                continue
+            r = asm_impl(asm, t, a)
+            add(f'asm {a} ' + cps(t), r, 'asm-spelled-' + r.split()[0], ('asms', t, a if kind == 'jr_arg' else 0))
+
+    # the @bytes directive of a variant instruction, as sna2skool writes it and skool2* read it
+    snaskool, ctlparser, skoolutils = fresh_modules('skoolkit.snaskool', 'skoolkit.ctlparser', 'skoolkit.skoolutils')
+    vseqs = variant_sequences(disassembler)
+    snap = [0] * 65536
+    a = 32768
+    for q in vseqs:
+        snap[a:a + len(q)] = q       # followed by two zero bytes: operand of the 4-byte ED63/ED6B, NOPs otherwise
+        a += len(q) + 2
+    cp = ctlparser.CtlParser()
+    cp.parse_ctls([io.StringIO(f'c 32768\ni {a}\n')])
+    for hx in (0, 1):
+        for lo in (0, 1):
+            dis = snaskool.Disassembly(snap, cp, {'Opcodes': 'ALL'}, asm_hex=bool(hx), asm_lower=bool(lo))
+            n_var = 0
+            for entry in dis.entries:
+                for ins in entry.instructions:
+                    bd = [x for x in ins.asm_directives if x.startswith('bytes=')]
+                    if not bd:
+                        continue
+                    n_var += 1
+                    add(f'bdir {hx} {lo} ' + ' '.join(map(str, ins.bytes)), ok_txt(bd[0][6:]), 'bytes-directive',
+                        ('bdir', tuple(ins.bytes), hx, lo))
+                    back = skoolutils.parse_asm_bytes_directive(bd[0])
+                    add('pbdir ' + cps(bd[0][6:]), ok_list(back), 'bytes-directive-parse', ('pbdir', bd[0]))
+                    if list(back) != list(ins.bytes):
+                        chk.violation('variant-bytes-directive', f'@{bd[0]} written for {ins.operation!r} at {ins.address} is read back '
+                                      f'as {list(back)}, not {list(ins.bytes)}', {'kind': 'bdir', 'hex': hx, 'lower': lo, 'bytes': list(ins.bytes)})
+            if n_var != len(vseqs):
+                chk.breaks.append({'kind': 'correspondence', 'name': '@bytes directives of variant instructions',
+                                   'detail': f'{n_var} directives for {len(vseqs)} variant sequences (hex={hx}, lower={lo})'})
+    for _ in range(chk.scale(400, 4000)):
+        t = rng.choice((','.join(spell(rng, rng.randrange(256), False) for _ in range(rng.randrange(1, 5))),
+                        random_text(rng, ['1', '$F', ',', ',', ' ', '"a"', '%1', 'x', '-2', '255', '$ff'], 6)))
+        add('pbdir ' + cps(t), ok_list(skoolutils.parse_asm_bytes_directive('bytes=' + t)), 'bytes-directive-parse', ('pbdir', t))
+
+    model = chk.run_driver('C02', ops)
+    chk.compare('AsmInstr/DisText models vs Assembler._assemble / Disassembler.disassemble / @bytes', ops, impl, model)
+    if model is not None:
+        chk.extra['model_unsupported_instr'] = sum(1 for m in model if m == 'unsupported')
+
+
+def fresh_modules(*names):
+    import importlib
+    return [importlib.import_module(n) for n in names]
+
+
+# --------------------------------------------------------------------------------------------
 # e2e: forward direction (disassemble -> assemble)
 # --------------------------------------------------------------------------------------------
 
@@ -432,6 +646,32 @@ def check_forward(chk, asm, d, mem, cfgd, seq, addr, base, stats):
         fwd_fail(chk, stats, d, 'EXC-' + type(e).__name__, base, seq,
                  f"{cfgd}: disassembling/assembling bytes {list(seq)} at {addr} (base {base!r}) raised {type(e).__name__}: {e}", rp)
         return False
+    # remember the case for the model correspondence (one representative per text and address class)
+    texts = stats.get('_texts')
+    if texts is not None:
+        mn = ins.operation[:5].upper()
+        akey = addr if mn.startswith(('JR ', 'DJNZ ')) else -1
+        key = (ins.operation, akey)
+        hk = hash(key)
+        if hk not in stats['_seen']:
+            stats['_seen'].add(hk)
+            # bucket = slot x base x configuration x boundary class (x offset for relative jumps); the first
+            # `_cap` texts of a bucket and 2% of the others go to the model
+            if seq[0] in (0xDD, 0xFD) and len(seq) > 3 and seq[1] == 0xCB:
+                sk = (seq[0], 0xCB, seq[3])
+            elif seq[0] in (0xCB, 0xED, 0xDD, 0xFD):
+                sk = tuple(seq[:2])
+            else:
+                sk = (seq[0],)
+            b = (sk, base, cfgd['hex'], cfgd['lower'], cfgd['opcodes'].strip().upper()[:3], addr > 65531,
+                 akey >= 0 and seq[1] in EDGE_BYTES and seq[1])
+            buckets = stats['_buckets']
+            nb = buckets.get(b, 0)
+            stats['_distinct'] += 1
+            if nb < stats['_cap'] or chk.rng.random() < 0.02:
+                buckets[b] = nb + 1
+                texts[key] = (cfgd['hex'], cfgd['lower'], cfgd['opcodes'], cfgd['wrap'], base, addr, tuple(seq), ins.variant,
+                              tuple(data), tuple(back))
     if ins.variant:
         stats['variant'] += 1
         if not back:
@@ -487,7 +727,8 @@ def e2e_forward(chk, mods):
     skoolkit, z80, disassembler, textutils = mods
     rng = chk.rng
     asm = z80.Assembler()
-    stats = {'variant': 0, 'variant-unassemblable': 0, 'excluded-m-nonneg': 0}
+    stats = {'variant': 0, 'variant-unassemblable': 0, 'excluded-m-nonneg': 0, '_texts': {}, '_buckets': {}, '_seen': set(), '_distinct': 0,
+             '_cap': chk.scale(1, 4)}
     seqs_small = slot_sequences(chk, disassembler, False)
     seqs_full = slot_sequences(chk, disassembler, True) if chk.thorough else seqs_small
     chk.extra['slot_sequences'] = [len(seqs_small), len(seqs_full)]
@@ -533,7 +774,13 @@ def e2e_forward(chk, mods):
     # complete sweeps of the operand-bearing dimensions
     sweep_operands(chk, asm, disassembler, stats)
     report_forward(chk, stats)
+    texts = stats.pop('_texts')
+    stats.pop('_buckets')
+    stats.pop('_seen')
+    stats.pop('_cap')
+    stats['distinct_texts'] = stats.pop('_distinct')
     chk.extra['forward_stats'] = stats
+    return texts
 
 
 def sweep_operands(chk, asm, disassembler, stats):
@@ -837,6 +1084,27 @@ def e2e_converse(chk, mods):
                         text = tmpl.format((a + delta) % 65536)
                         r = conv_case(chk, asm, diss, mem, text, a, fails, kind)
                         chk.case('conv-jr-' + r, ('cj', text, a))
+        # relative jumps exist for NZ, Z, NC and C only: any other condition must be rejected, otherwise the
+        # produced bytes are `LD r,B` + a stray byte, which do not disassemble to themselves
+        for cc in ('PO', 'PE', 'P', 'M', 'po'):
+            for a, tgt in ((0, 3), (32768, 32771), (65535, 2)):
+                text = f'JR {cc},{tgt}'
+                b = list(asm.assemble(text, a))
+                chk.case('conv-jr-invalid-condition-' + ('accepted' if b else 'rejected'), ('cjx', text, a))
+                if b:
+                    chk.violation('asm-jr-invalid-condition',
+                                  f"assemble({text!r}, {a}) = {b}: the Z80 has no JR {cc.upper()}; the bytes are LD r,B and a stray "
+                                  "offset byte, which disassemble to other instructions (running past the produced bytes)",
+                                  {'kind': 'conv', 'text': text, 'addr': a})
+        # any instruction text the assembler accepts out of the malformed stream (registers in odd places, third
+        # operands, bracketed numbers, limits of every operand range, ...); DEFx statements are data (e2e_data)
+        jr_bad = re.compile(r'\s*JR\s+(PO|PE|P|M)\s*,', re.I)
+        for text, addr in malformed_stream(chk, chk.scale(30000, 300000)):
+            if text.strip()[:3].upper() == 'DEF' or jr_bad.match(text):
+                continue
+            r = conv_case(chk, asm, diss, mem, text, addr, fails, 'stream')
+            chk.case('conv-stream-' + r, ('cs', text, addr if text.strip()[:2].upper() in ('JR', 'DJ') else 0),
+                     {'kind': 'conv', 'text': text, 'addr': addr, 'result': r} if r == 'ok' and chk.rng.random() < 0.002 else None)
         by_kind = {}
         for tk in tmpls:
             by_kind.setdefault(tk[1], []).append(tk)
@@ -864,30 +1132,46 @@ def run(chk):
                 'random sublength structures; converse: every template of the disassembler tables x canonical index operands '
                 '(all 256, + and -) and jump targets, plus grammar-generated spellings ($hex, %bin, "c", "\\"", expressions, odd '
                 'whitespace, case). correspondence: model drivers vs real functions on rendered numbers (all byte values x bases x '
-                'cfg), expression/soup texts, strings, splitting, case conversion. non-trivial = distinct by content')
-    chk.trusted += ['hand models lean/SkoolVerif/Model/OpText.lean + AsmEval.lean tied by correspondence (harness/props/c02.py)',
+                'cfg), expression/soup texts, strings, splitting, case conversion; instruction level: Assembler._assemble vs asmInstr '
+                'on rendered texts (1 (thorough: 4) per slot x base x cfg x boundary class + 2% of the rest), a malformed '
+                'instruction stream (all mnemonics x operand pool incl. (IX-0), (IY+$7F), out-of-range values, wrong operand '
+                'counts, odd separators/case) and grammar-generated spellings; Disassembler.disassemble vs disText on the same '
+                'slots; @bytes directives of all variant sequences. non-trivial = distinct by content')
+    chk.trusted += ['hand models lean/SkoolVerif/Model/OpText.lean + AsmEval.lean + AsmInstr.lean (Assembler._assemble and every '
+                    'encoder) + DisText.lean/InstrDecode.lean (one Disassembler.disassemble step) tied by correspondence '
+                    '(harness/props/c02.py)',
+                    'translate/gen_c02.py: dump of the opcode tables of real Disassembler objects (Gen/C02Tables.lean), tied by '
+                    'the `dis` correspondence (model rendering vs real disassemble on every slot)',
                     'CPython int()/eval()/re (modelled: pyInt, evalArith, scanQuoted, convNumsAux)']
     chk.assumptions += [
-        'Gap: the opcode tables (7x256 slots, template filling) and the per-mnemonic dispatch of Assembler._assemble_* are not '
-        'modelled; part 1 of the property over them is established by the complete sweep of the slots on the real code (e2e), '
-        'not by theorem. The theorems cover everything below that: tokenising, operand evaluation, jump/index arithmetic, DEFx.',
-        'Gap: part 2 (assemble -> disassemble -> assemble) is proved at operand level (operand_converse, index_converse, '
-        'jr_converse); at instruction level it is e2e only',
+        'part 1 at instruction level is a theorem (instruction_roundtrip) for every slot x operand x address x base x '
+        'configuration; the e2e sweep of the slots on the real code is kept as an independent check',
+        'Gap: part 2 (assemble -> disassemble -> assemble) at instruction level is proved for the texts the disassembler emits, '
+        'under any second configuration (instruction_converse), and at operand level for every spelling (operand_converse, '
+        'index_converse, jr_converse); for arbitrary accepted spellings of whole instructions (odd white space, third operands, '
+        '`LD B,(5)`, ...) it is e2e only',
         "model restrictions: code points < 256, no '**' operator in expressions (generators never emit it), ASCII-only case mapping",
         "'m' base on operands the assembler requires to be non-negative (RST n, IN A,(n), OUT (n),A, DEFS size) is outside the "
         "property ('negative where a signed operand is meaningful') and only counted",
         'variant opcode sequences (instruction.variant) are re-created from instruction.bytes, not from the text']
     mods = fresh_import('skoolkit', 'skoolkit.z80', 'skoolkit.disassembler', 'skoolkit.textutils')
+    regen(chk)
     ok = chk.lake_build([PROPS, 'SkoolVerif.Prelude.Proto'])
     chk.audit(PROPS)
     if chk.thorough and ok:
         chk.leanchecker([PROPS])
     t = {'build+audit': round(chk.elapsed(), 1)}
+    texts = {}
     for name, f in (('correspondence', correspondence), ('e2e_data', e2e_data), ('e2e_converse', e2e_converse),
                     ('e2e_forward', e2e_forward)):
         t0 = chk.elapsed()
-        f(chk, mods)
+        r = f(chk, mods)
+        if name == 'e2e_forward':
+            texts = r
         t[name] = round(chk.elapsed() - t0, 1)
+    t0 = chk.elapsed()
+    correspondence_instr(chk, mods, texts)
+    t['correspondence_instr'] = round(chk.elapsed() - t0, 1)
     chk.extra['phase_seconds'] = t
 
 
@@ -910,6 +1194,19 @@ def replay(chk, data):
         sz = c.get('sizes', [8, 66, 1])
         d = disassembler.Disassembler(mem, Cfg(c['hex'], c['lower'], '', False, *sz))
         data_case(chk, asm, d, mem, c, data['dkind'], data['start'], list(data['data']), [tuple(s) for s in data['subs']])
+    elif data['kind'] == 'bdir':
+        snaskool, ctlparser, skoolutils = fresh_modules('skoolkit.snaskool', 'skoolkit.ctlparser', 'skoolkit.skoolutils')
+        bs = list(data['bytes'])
+        mem[32768:32768 + len(bs)] = bs
+        cp = ctlparser.CtlParser()
+        cp.parse_ctls([io.StringIO(f'c 32768\ni {32768 + len(bs) + 2}\n')])
+        dis = snaskool.Disassembly(mem, cp, {'Opcodes': 'ALL'}, asm_hex=bool(data['hex']), asm_lower=bool(data['lower']))
+        ins = dis.entries[0].instructions[0]
+        bd = [x for x in ins.asm_directives if x.startswith('bytes=')]
+        back = list(skoolutils.parse_asm_bytes_directive(bd[0])) if bd else None
+        if ins.variant and back != list(ins.bytes):
+            chk.violation('variant-bytes-directive', f'@bytes directive {bd} of {ins.operation!r} is read back as {back}, not '
+                          f'{list(ins.bytes)}', data)
     elif data['kind'] == 'conv':
         diss = [(f'hex={hx},lower={lo}', disassembler.Disassembler(mem, Cfg(hx, lo, 'ALL', True)))
                 for hx, lo in ((False, False), (True, True))]
